@@ -31,6 +31,24 @@ def _fs_ports(i, nops):
         out += [(0x81 if k == nops - 1 else 0x01), (i + k) % 256]
     return out
 
+FS_FAMILIES = (IPV4_FS, IPV6_FS, IPV4_FSVPN, IPV6_FSVPN)
+FS_KINDS = 10
+
+def fs_exact(family, i, target):
+    """A Flowspec NLRI whose rule body is exactly [target] octets: RD (VPN), an optional destination
+    prefix component and a port component of the right number of operators."""
+    body = _rd(i) if family in (IPV4_FSVPN, IPV6_FSVPN) else []
+    rest = target - len(body)
+    if rest % 2 == 0:
+        if family in (IPV4_FS, IPV4_FSVPN):
+            body += [1, 24, 10, (i >> 8) & 255, i & 255]
+        else:
+            body += [1, 32, 0, 32, 1, (i >> 8) & 255, i & 255]
+    rest = target - len(body)
+    body += _fs_ports(i, (rest - 1) // 2)
+    assert len(body) == target, (family, target, len(body))
+    return _fs_len(len(body)) + body
+
 def raw_nlri(family, kind, i):
     """Wire bytes of one NLRI of [family]; [kind] selects a size class, [i] makes it distinct."""
     v4 = [10] + [(i >> 16) & 255, (i >> 8) & 255, i & 255]
@@ -54,6 +72,9 @@ def raw_nlri(family, kind, i):
         return [96] + be32(65000 + i % 100) + [0, 2] + be16(65000) + be32(i)
     if family in (IPV4_SRP, IPV6_SRP):
         return ([96] + be32(i) + be32(100 + i % 3) + v4) if family == IPV4_SRP else ([192] + be32(i) + be32(100 + i % 3) + v6)
+    if family in FS_FAMILIES and kind >= 5:
+        # rule bodies around the switch of the length prefix from one octet to two (RFC 8955 4.1: < 240)
+        return fs_exact(family, i, [239, 240, 241, 238, 242][kind % 5])
     if family in (IPV4_FS, IPV6_FS):
         nops = [1, 3, 40, 130, 1000][kind % 5]
         body = _fs_ports(i, nops)
